@@ -223,14 +223,17 @@ Fixpoint sim (a b : val) {struct a} : bool :=
       end
   | _, _ => false
   end.
-Definition mk_oracle (zs : list Z) (qs : list Q) (vs : list val) : oracle :=
-  {| oz := fun i => nth i zs 0%Z; oq := fun i => nth i qs 0; ov := fun i => nth i vs VNone |}.
+Inductive draw := DZ (z : Z) | DQ (q : Q) | DV (v : val).
+Definition mk_oracle (ds : list draw) : oracle :=
+  {| oz := fun i => match nth i ds (DZ 0%Z) with DZ z => z | _ => 0%Z end;
+     oq := fun i => match nth i ds (DZ 0%Z) with DQ q => q | _ => 0 end;
+     ov := fun i => match nth i ds (DZ 0%Z) with DV v => v | _ => VNone end |}.
 Fixpoint same_stream (a b : list val) : bool :=
   match a, b with [], [] => true | x :: r, y :: r' => sim x y && same_stream r r' | _, _ => false end.
 """
 
 
-def replay_cases(mode, preds, n_values, seed):
+def replay_cases(mode, preds, n_values, seed, max_draws=None):
     """-> (coq items, descriptions). One case = (program, oracle, expected first n values)"""
     items, desc = [], []
     genf = GT.generate_true if mode == "true" else GF.generate_false
@@ -250,31 +253,39 @@ def replay_cases(mode, preds, n_values, seed):
         extra = [c for c in consts_of(p)] + [v for v in drawn if isinstance(v, (str, uuid.UUID))]
         cx = GCtx(ck, extra)
         try:
-            zs = "[" + "; ".join((f"({v})%Z" if k == "Z" else "0%Z") for k, v in rec.draws) + "]"
-            qs = "[" + "; ".join((cx.q(float(v)) if k == "Q" else "0") for k, v in rec.draws) + "]"
-            vs = "[" + "; ".join((cx.val(v) if k == "V" else "VNone") for k, v in rec.draws) + "]"
+            ds = "[" + "; ".join((f"DZ ({v})%Z" if k == "Z" else (f"DQ {cx.q(float(v))}" if k == "Q" else f"DV {cx.val(v)}"))
+                                 for k, v in rec.draws) + "]"
             exp = "[" + "; ".join(cx.val(v) for v in vals) + "]"
             ptxt = cx.pred(p)
         except (enc.Unencodable, KeyError, TypeError):
             continue
         fe = fenv_text(cx, consts_of(p))
-        items.append(f"(({fe}), {ck}, {ptxt}, {zs}, {qs}, {vs}, {exp}, {len(vals)}%nat)")
+        if max_draws and len(rec.draws) > max_draws:
+            continue
+        items.append(f"(({fe}), {ck}, {ptxt}, {ds}, {exp}, {len(vals)}%nat)")
         desc.append({"p": repr(p), "mode": mode, "values": len(vals), "draws": len(rec.draws), "ended": err is None and len(vals) < n_values})
     return items, desc
 
 
-def run_replay(name, mode, preds, n_values, seed):
-    items, desc = replay_cases(mode, preds, n_values, seed)
+def run_replay(name, mode, preds, n_values, seed, max_draws=None):
+    from concurrent.futures import ThreadPoolExecutor
+    items, desc = replay_cases(mode, preds, n_values, seed, max_draws)
     fn = "gen_true" if mode == "true" else "gen_false"
-    run_def = ("Definition run (c : fenv * kind * pred * list Z * list Q * list val * list val * nat) : nat :=\n"
-               "  let '(fe, ck, p, zs, qs, vs, expected, n) := c in\n"
-               f"  let got := first_n (300 * 1000)%nat n ({fn} fe W0 ck p) (mk_oracle zs qs vs) 0 in\n"
+    run_def = ("Definition run (c : fenv * kind * pred * list draw * list val * nat) : nat :=\n"
+               "  let '(fe, ck, p, ds, expected, n) := c in\n"
+               f"  let got := first_n (300 * 1000)%nat n ({fn} fe W0 ck p) (mk_oracle ds) 0 in\n"
                "  if same_stream got expected then 0%nat else if Nat.eqb (List.length got) (List.length expected) then 1%nat else 2%nat.")
-    codes = []
-    for part in chunks(items, 40):
+    parts = list(chunks(items, 12))
+
+    def one(ip):
+        i, part = ip
         text = (enc.CASE_HEADER + enc.world_text() + COMMON_DEFS + run_def
                 + "\nDefinition cases := [\n" + ";\n".join(part) + "].\nEval vm_compute in map run cases.\n")
-        codes += vlib.parse_nat_list(vlib.coq_eval(name, text, timeout=900))
+        return vlib.parse_nat_list(vlib.coq_eval(f"{name}_{i}", text, timeout=900))
+    codes = []
+    with ThreadPoolExecutor(max_workers=12) as ex:
+        for r in ex.map(one, enumerate(parts)):
+            codes += r
     mism = [{**desc[i], "disagreement": {1: "a value differs", 2: "the model yields a different number of values"}[c]}
             for i, c in enumerate(codes) if c != 0]
     return desc, mism
